@@ -2074,8 +2074,9 @@ static C04Res c17Once(const Instance& I, const ParamSet& cfg, int loadMode, uint
                if(I2.T.known && I2.T.robust) R.set(std::string("copy-resolve-status.") + how, std::string("source re-solved: ") + statusName(sa) + ", copy re-solved: " + statusName(sb));
                else if(count) S.count("c17.note.copy_resolve_verdicts_differ_on_uncertified_lp");
             }
-            else if(sa == SPX::OPTIMAL && sb == SPX::OPTIMAL)
+            else if(sa == SPX::OPTIMAL && sb == SPX::OPTIMAL && M.family != "badly-scaled")
             {
+               // (on badly scaled data a tolerance-level move of the point changes the objective by large relative amounts: not judged)
                double va = A->objValueReal(), vb = B->objValueReal();
                if(std::fabs(va - vb) > 1e-6 * (1.0 + std::fabs(va))) R.set(std::string("copy-resolve-objective.") + how, "source re-solved: " + ds(va) + ", copy re-solved: " + ds(vb));
             }
